@@ -35,6 +35,9 @@ open Wire Enum
     tinit <n> <byEnergy> <aggregate> ; rows    → `err` / `ok rows` (Truncate / PolyTruncate composite incl. `__init__`)
     xsolve <spin> poly ; vars ; poly  /  xsolve <spin> bqm ; vars ; lin ; quad ; off → rows IN ORDER (`vars` = `list(problem.variables)`, the gray-code column order; each row printed by sorted label)
                                                  (ExactPolySolver.sample_poly / ExactSolver.sample as coded: `exactRows`)
+    pcomp <spin> <scalar|-> <bias_range> <poly_range|-> ; ignored ; poly → `ok rows` / `err value` / `err zerodiv`
+                                                 (PolyScaleComposite.sample_poly total over scalar: `polyScaleCompositeFull`, exact child;
+                                                 `err value` = the refusal of scalar 0, `err zerodiv` = a range end 0 with scalar None)
     poly   = `bias@l&l&l|…`   fixed/lin = `l=v,…`   quad = `u&v=b,…`   reds = `u&v&p,…` -/
 
 def sepBy (c : String) (s : String) : List String := if s = "" ∨ s = "-" then [] else s.splitOn c
@@ -246,6 +249,21 @@ def answer (line : String) : String :=
         | some rows => "ok " ++ showRows rows
         | none => "err"
     | _, _, _ => "bad"
+  | ["pcomp", spin, sc, br, pr] =>
+    let parseRange? (t : String) : Option RangeArg :=
+      match t.splitOn ":" with
+      | [a] => (parseRat? a).map RangeArg.num
+      | [a, b] => do let a ← parseRat? a; let b ← parseRat? b; pure (RangeArg.pair a b)
+      | _ => none
+    let sc? : Option (Option Rat) := if sc = "-" then some none else (parseRat? sc).map some
+    let pr? : Option (Option RangeArg) := if pr = "-" then some none else (parseRange? pr).map some
+    match sc?, parseRange? br, pr?, (sepBy "|" (field parts 1)).mapM (fun t => parseLabels t "&"), parsePoly (field parts 2) with
+    | some sc, some br, some pr, some ign, some p =>
+      match polyScaleCompositeFull (exactPoly (spin = "1")) p sc br pr ign with
+      | .ok rows => "ok " ++ showRows rows
+      | .error .scalarZero => "err value"
+      | .error .rangeZero => "err zerodiv"
+    | _, _, _, _, _ => "bad"
   | ["pfull", spin, ch, fx] =>
     match parsePoly (field parts 1), parseAssign (field parts 2) with
     | some p, some fixed =>
